@@ -203,6 +203,33 @@ Theorem C20_placement_inside_window : forall ops i r cur p,
 Proof. exact placement_inside_window. Qed.
 Print Assumptions C20_placement_inside_window.
 
+(* Image data (kitty).  On the wire a frame is the placement events of C20_placement_protocol
+   with the pending image data (tag 2) inserted before the first write of a placement of that
+   image: erasing the data events gives back the placement events. *)
+Theorem C20_wire_is_placement_events : forall ops s pending,
+  map (fun f => filter not_data (snd f)) (kitty_frames s pending ops) = map (map ev_key) (run_ops s ops).
+Proof. exact kitty_frames_erase. Qed.
+Print Assumptions C20_wire_is_placement_events.
+
+(* Full statement wanted ("transmitted when it first appears or changes, not retransmitted while
+   unchanged", for the pixels):  forall ops, trans_ok [] ops (kitty_frames g_init [] ops) = true.
+   It is false (C20_transmission_refuted; recorded finding resize-same-cells): a Resize that keeps
+   the cell size leaves the placement "same", so nothing is written and the new pixels stay
+   unsent.  Proved: it holds for every history outside that guard. *)
+Theorem C20_transmission_guarded : forall ops s pending,
+  stale_guard s pending ops = false ->
+  trans_ok pending ops (kitty_frames s pending ops) = true.
+Proof. exact transmission_guarded. Qed.
+Print Assumptions C20_transmission_guarded.
+
+Theorem C20_transmission_refuted :
+  let p := {| p_id := 1; p_col := 2; p_row := 3; p_w := 4; p_h := 2 |} in
+  let ops := [OResize 1; ODraw p 10 5; ORender; OClear; OResize 1; ODraw p 10 5; ORender] in
+  kitty_frames g_init [] ops = [([p], [(2, 1, 0, 0); (1, 1, 2, 3)]); ([p], [])] /\
+  trans_ok [] ops (kitty_frames g_init [] ops) = false /\ stale_guard g_init [] ops = true.
+Proof. vm_compute. repeat split; reflexivity. Qed.
+Print Assumptions C20_transmission_refuted.
+
 (* one event list per Render/Refresh *)
 Theorem C20_placement_frames : forall ops, length (run_ops g_init ops) = length (frames_of [] ops).
 Proof. exact run_ops_length. Qed.
@@ -217,6 +244,16 @@ Proof. vm_compute. repeat split; reflexivity || discriminate. Qed.
 
 (* binary64 rounds 1/49*49 below 1: a 49x1 image in a 1x1 box (cells 1x1) gets width 0 *)
 Example C20_example_float : resize_dims 49 1 1 1 1 1 = RDims 0 0 /\ rn 1 3 = (6004799503160661, 18014398509481984).
+Proof. vm_compute. split; reflexivity. Qed.
+
+(* the guard of C20_transmission_guarded is satisfiable: resize, draw, render, resize to another
+   cell size, draw, render sends the data twice, once per encoding *)
+Example C20_example_transmission :
+  let p := {| p_id := 1; p_col := 2; p_row := 3; p_w := 4; p_h := 2 |} in
+  let q := {| p_id := 1; p_col := 2; p_row := 3; p_w := 3; p_h := 2 |} in
+  let ops := [OResize 1; ODraw p 10 5; ORender; OClear; OResize 1; ODraw q 10 5; ORender] in
+  stale_guard g_init [] ops = false /\
+  map snd (kitty_frames g_init [] ops) = [[(2, 1, 0, 0); (1, 1, 2, 3)]; [(0, 1, 2, 3); (2, 1, 0, 0); (1, 1, 2, 3)]].
 Proof. vm_compute. split; reflexivity. Qed.
 
 (* a history: draw p, render, move it, render, keep, render, refresh; then a window too small *)
